@@ -96,6 +96,11 @@ class UnitManager(AoE2Object):
         if (x is not None or y is not None) and tile is not None:
             raise ValueError("Cannot use both x,y notation and tile notation at the same time")
 
+        # The caption string id cannot be set through this function, so the clone inherits it (when the scenario
+        # version has it; reading it on older versions raises an UnsupportedAttributeError)
+        caption_string_id_retriever = Unit._link_list[1].group[9]
+        supports_caption = caption_string_id_retriever.support.supports(self.get_scenario().scenario_version)
+
         return self.add_unit(
             player=player if player is not None else unit.player,
             unit_const=unit_const if unit_const is not None else unit.unit_const,
@@ -107,6 +112,7 @@ class UnitManager(AoE2Object):
             animation_frame=animation_frame if animation_frame is not None else unit.initial_animation_frame,
             status=status if status is not None else unit.status,
             reference_id=reference_id,
+            caption_string_id=unit.caption_string_id if supports_caption else -1,
             tile=tile,
         )
 
